@@ -1501,7 +1501,19 @@ class TeX(object):
                 return dimen(sign * dimen(t))
             self.pushToken(t)
             break
-        num = dimen(sign * self.readDecimal() * self.readUnitOfMeasure(units=units))
+        factor = self.readDecimal()
+        unit = self.readUnitOfMeasure(units=units)
+        if abs(unit) >= 2e9:
+            # fil(ll) units are encoded by an offset that marks their order;
+            # only the amount is multiplied by the factor
+            order = abs(unit) - abs(unit.fill)
+            amount = sign * factor * unit.fill
+            if amount < 0:
+                num = dimen(amount - order)
+            else:
+                num = dimen(amount + order)
+        else:
+            num = dimen(sign * factor * unit)
         ParameterCommand.enable()
         return num
 
